@@ -42,17 +42,21 @@ type Expr struct {
 	Style int     `json:"st,omitempty"`  // spelling choice (quotes, [ ] / { }, ! vs ~, bare modifier)
 }
 
-func Lit(s string) *Expr           { return &Expr{Kind: KLit, S: s, Prod: -1, Uni: -1} }
-func TLit(s, t string) *Expr       { return &Expr{Kind: KLit, S: s, T: t, Prod: -1, Uni: -1} }
-func Ref(t string) *Expr           { return &Expr{Kind: KRef, T: t, Prod: -1, Uni: -1} }
-func Seq(k ...*Expr) *Expr         { return &Expr{Kind: KSeq, Kids: k, Prod: -1, Uni: -1} }
-func Alt(k ...*Expr) *Expr         { return &Expr{Kind: KAlt, Kids: k, Prod: -1, Uni: -1} }
-func Group(mod string, b *Expr) *Expr { return &Expr{Kind: KGroup, Mod: mod, Kids: []*Expr{b}, Prod: -1, Uni: -1} }
-func Cap(b *Expr) *Expr            { return &Expr{Kind: KCap, Kids: []*Expr{b}, Prod: -1, Uni: -1} }
-func SubP(p int) *Expr             { return &Expr{Kind: KSub, Prod: p, Uni: -1} }
-func SubU(u int) *Expr             { return &Expr{Kind: KSub, Prod: -1, Uni: u} }
-func Not(b *Expr) *Expr            { return &Expr{Kind: KNeg, Kids: []*Expr{b}, Prod: -1, Uni: -1} }
-func Look(neg bool, b *Expr) *Expr { return &Expr{Kind: KLook, Neg: neg, Kids: []*Expr{b}, Prod: -1, Uni: -1} }
+func Lit(s string) *Expr     { return &Expr{Kind: KLit, S: s, Prod: -1, Uni: -1} }
+func TLit(s, t string) *Expr { return &Expr{Kind: KLit, S: s, T: t, Prod: -1, Uni: -1} }
+func Ref(t string) *Expr     { return &Expr{Kind: KRef, T: t, Prod: -1, Uni: -1} }
+func Seq(k ...*Expr) *Expr   { return &Expr{Kind: KSeq, Kids: k, Prod: -1, Uni: -1} }
+func Alt(k ...*Expr) *Expr   { return &Expr{Kind: KAlt, Kids: k, Prod: -1, Uni: -1} }
+func Group(mod string, b *Expr) *Expr {
+	return &Expr{Kind: KGroup, Mod: mod, Kids: []*Expr{b}, Prod: -1, Uni: -1}
+}
+func Cap(b *Expr) *Expr { return &Expr{Kind: KCap, Kids: []*Expr{b}, Prod: -1, Uni: -1} }
+func SubP(p int) *Expr  { return &Expr{Kind: KSub, Prod: p, Uni: -1} }
+func SubU(u int) *Expr  { return &Expr{Kind: KSub, Prod: -1, Uni: u} }
+func Not(b *Expr) *Expr { return &Expr{Kind: KNeg, Kids: []*Expr{b}, Prod: -1, Uni: -1} }
+func Look(neg bool, b *Expr) *Expr {
+	return &Expr{Kind: KLook, Neg: neg, Kids: []*Expr{b}, Prod: -1, Uni: -1}
+}
 
 // FKind is the Go type of a receiving field.
 type FKind int
@@ -92,9 +96,9 @@ type Field struct {
 type Prod struct {
 	Fields   []Field `json:"fields"`
 	Expr     *Expr   `json:"expr"`
-	PosStyle int     `json:"pos_style"` // 0 plain Pos/EndPos/Tokens, 1 embedded mixin, 2 convertible position type, 3 none
-	TagStyle int     `json:"tag_style"` // 0 whole tag, 1 parser:"..."
-	Tight    bool    `json:"tight"`     // omit optional whitespace between tag tokens
+	PosStyle int     `json:"pos_style"`       // 0 plain Pos/EndPos/Tokens, 1 embedded mixin, 2 convertible position type, 3 none
+	TagStyle int     `json:"tag_style"`       // 0 whole tag, 1 parser:"..."
+	Tight    bool    `json:"tight"`           // omit optional whitespace between tag tokens
 	Embed    int     `json:"embed,omitempty"` // Go-source rendering: the first Embed fields live in an embedded named struct
 }
 
@@ -108,8 +112,8 @@ type Grammar struct {
 	Prods     []*Prod  `json:"prods"`
 	Unions    []Union  `json:"unions"` // Unions[0] is the root: type Root struct{ V U0 `@@` }
 	Lookahead int      `json:"lookahead"`
-	CI        []string `json:"ci,omitempty"`    // case-insensitive token types
-	Elide     []string `json:"elide,omitempty"` // elided token types
+	CI        []string `json:"ci,omitempty"`      // case-insensitive token types
+	Elide     []string `json:"elide,omitempty"`   // elided token types
 	Profile   string   `json:"profile,omitempty"` // lexer profile: "" stateful test lexer, "scanner" default text/scanner lexer
 }
 
